@@ -56,6 +56,18 @@ func (a *Activation) model(name string, fn *ssa.Function, args []Val, st *State,
 		"sync/atomic.(*Pointer).Store", "sync/atomic.(*Pointer).Load", "sync/atomic.(*Pointer).CompareAndSwap",
 		"sync/atomic.(*Int32).Add", "sync/atomic.(*Int32).Load":
 		return a.atomicModel(name, args, st, pos, sig)
+	case "time.AfterFunc":
+		// the function runs in its own goroutine, once, not before d has elapsed (trusted); verified separately
+		t.assumed["time.AfterFunc runs the function at most once and not before the duration has elapsed"] = true
+		t.regArray("$spawned", "Int")
+		t.set(st, "$spawned", "(+ "+t.lookup(st, "$spawned")+" 1)")
+		t.regArray("$g:afterdur", "Int")
+		t.set(st, "$g:afterdur", args[0].S)
+		t.regArray("$g:afterfn", "Int")
+		t.set(st, "$g:afterfn", args[1].S)
+		a.escape(st, args[1])
+		ref := a.allocRef(st, "timer", "afterfunc")
+		return st, []Val{{K: KRef, S: ref, T: sig.Results().At(0).Type()}}, true
 	case "time.NewTimer":
 		// timer object: channel C fires only after d has elapsed (ghost: fired(timer) => elapsed >= d)
 		t.assumed["time.NewTimer: the timer channel never delivers before the duration has elapsed, and at most once"] = true
@@ -63,6 +75,8 @@ func (a *Activation) model(name string, fn *ssa.Function, args []Val, st *State,
 		ch := a.allocRef(st, "chan", "timerC")
 		t.regArray("time.Timer.C", "(Array Int Int)")
 		t.set(st, "time.Timer.C", sApp("store", t.lookup(st, "time.Timer.C"), ref, ch))
+		t.regArray("$g:lasttimerdur", "Int")
+		t.set(st, "$g:lasttimerdur", args[0].S)
 		t.regArray("$timerdur", "(Array Int Int)")
 		t.set(st, "$timerdur", sApp("store", t.lookup(st, "$timerdur"), ch, args[0].S))
 		t.regArray("$istimer", "(Array Int Bool)")
@@ -392,9 +406,12 @@ func (a *Activation) recv(in *ssa.UnOp, st *State) *State {
 	ch := a.val(in.X, st)
 	ET := in.X.Type().Underlying().(*types.Chan).Elem()
 	v := a.chanGet(st, ch, ET)
-	a.recvInv(st, ch, v, tTrue)
+	if !recvOnly(in.X.Type()) {
+		a.recvInv(st, ch, v, tTrue)
+	}
 	if !recvOnly(in.X.Type()) {
 		a.tokAdd(st, ch.S, tTrue, -1)
+		a.rootAct().lets["lastmsg"] = v
 	}
 	a.ghostEvent(st, "recv", ch.S)
 	if in.CommaOk {
@@ -430,10 +447,13 @@ func (a *Activation) selectStmt(in *ssa.Select, st *State) *State {
 		} else {
 			ET := s.Chan.Type().Underlying().(*types.Chan).Elem()
 			v := a.chanGet(st, ch, ET)
-			a.recvInv(st, ch, v, chosen)
+			if !recvOnly(s.Chan.Type()) {
+				a.recvInv(st, ch, v, chosen)
+			}
 			fields = append(fields, v)
 			if !recvOnly(s.Chan.Type()) {
 				a.tokAdd(st, ch.S, chosen, -1)
+				a.rootAct().lets["lastmsg"] = v
 			}
 			a.timerFact(st, ch, chosen)
 		}
@@ -488,12 +508,36 @@ func (a *Activation) atomicModel(name string, args []Val, st *State, pos token.P
 		}
 		ref = recv.S
 	}
+	// a cell shared with another thread changes according to the declared rely before we look at it
+	cellName := ""
+	if recv.Loc != nil {
+		if i := strings.LastIndex(recv.Loc.Prefix, "."); i >= 0 {
+			cellName = recv.Loc.Prefix[i+1:]
+		}
+	} else {
+		for x := a; x != nil; x = x.callerA {
+			if n, ok := x.allocNames[ref]; ok {
+				cellName = n
+				break
+			}
+		}
+		if cellName == "" && a.fn != nil {
+			// a captured variable: the free variable's name
+			for i, fv := range a.fn.FreeVars {
+				if v, ok := a.env[fv]; ok && v.S == ref {
+					_ = i
+					cellName = fv.Name()
+				}
+			}
+		}
+	}
 	arr := prefix + ".v"
 	if k == KBool {
 		// atomic.Bool stores a uint32; we keep the boolean
 		arr = prefix + ".v#b"
 	}
 	t.regArray(arr, "(Array Int "+sortOfKind(k)+")")
+	a.applyRely(st, arr, ref, cellName, k)
 	cur := sApp("select", t.lookup(st, arr), ref)
 	a.nilCheck(recv, st, pos, "atomic receiver")
 	field := prefix
@@ -546,4 +590,36 @@ func selectOrdinal(in *ssa.Select) int {
 		}
 	}
 	return n
+}
+
+// applyRely: "rely <cell>: <formula over oldv, newv>" -- another thread may have changed the shared atomic cell;
+// the new content satisfies the declared relation (the other thread's code is verified to guarantee it).
+func (a *Activation) applyRely(st *State, arr, ref, cellName string, k Kind) {
+	t := a.t
+	con := a.rootContract()
+	if con == nil || cellName == "" {
+		return
+	}
+	for _, c := range con.Clauses {
+		if c.Kind != "rely" || c.Name != cellName {
+			continue
+		}
+		cur := sApp("select", t.lookup(st, arr), ref)
+		nv := t.fresh("rely:"+cellName, sortOfKind(k))
+		ra := a.rootAct()
+		oldv := Val{K: k, S: cur}
+		newv := Val{K: k, S: nv}
+		if k == KRef {
+			// typed view for field access in the relation: the contract names the pointee type via cast()
+		}
+		env := ra.exprEnv(st, map[string]Val{"oldv": oldv, "newv": newv})
+		for kk, v := range a.params {
+			if _, ok := env.vars[kk]; !ok {
+				env.vars[kk] = v
+			}
+		}
+		t.assume(st.pc, env.evalBool(c.Expr, c.Src))
+		t.set(st, arr, sApp("store", t.lookup(st, arr), ref, nv))
+		t.assumed["rely on the other thread for shared cell '"+cellName+"' ("+c.Src+"): "+c.Expr] = true
+	}
 }
